@@ -29,11 +29,21 @@ type HV struct {
 func (v *HV) Hashcode() interface{} { return v.ID }
 func (v *HV) String() string        { return fmt.Sprintf("v%d#%d", v.ID, v.Serial) }
 
+// HVU is a hash-coded vertex whose Go value is NOT comparable (it holds a
+// slice): "Vertex can be anything", and the hash code is its identity.
+type HVU struct {
+	ID   int
+	Tags []string
+}
+
+func (v HVU) Hashcode() interface{} { return v.ID }
+
 // GraphCase is a static digraph plus query parameters (C18, C20).
 type GraphCase struct {
 	N       int      `json:"n"`
-	Hash    bool     `json:"hash"`  // vertices are *HV (hash-coded) instead of plain ints
-	Edges   [][3]int `json:"edges"` // u, v, weight; later entries overwrite earlier ones
+	Hash    bool     `json:"hash"`            // vertices are *HV (hash-coded) instead of plain ints
+	Uncmp   bool     `json:"uncmp,omitempty"` // with Hash: vertices are HVU values (hash-coded, not comparable)
+	Edges   [][3]int `json:"edges"`           // u, v, weight; later entries overwrite earlier ones
 	Src     int      `json:"src"`
 	Decline []int    `json:"decline,omitempty"` // DFS: vertices whose callback does not descend
 	Kind    string   `json:"kind,omitempty"`    // generator class
@@ -47,7 +57,9 @@ func (gc *GraphCase) Build() (*graph.Graph, []graph.Vertex) {
 	var g graph.Graph
 	vs := make([]graph.Vertex, gc.N)
 	for i := 0; i < gc.N; i++ {
-		if gc.Hash {
+		if gc.Hash && gc.Uncmp {
+			vs[i] = HVU{ID: i, Tags: []string{"t"}}
+		} else if gc.Hash {
 			vs[i] = &HV{ID: i}
 		} else {
 			vs[i] = i
@@ -129,24 +141,43 @@ func Reach(n int, w map[[2]int]int) [][]bool {
 	return r
 }
 
+// Unreachable marks an unreachable vertex in a SingleSource row.
+const Unreachable = -1
+
 // SingleSource is the reference distance row from src (Bellman-Ford over the
-// edge list; Inf = unreachable; d[src] = 0). Weights are non-negative.
-func SingleSource(n int, w map[[2]int]int, src int) []int {
-	d := make([]int, n)
+// edge list, d[src] = 0, Unreachable for vertices src cannot reach). Weights
+// are non-negative ints of any size: sums are computed in saturating unsigned
+// arithmetic, and representable is false when the true minimum distance of
+// some reachable vertex does not fit below the largest int (such a graph is
+// outside what an int-valued distance map can answer).
+func SingleSource(n int, w map[[2]int]int, src int) (row []int, representable bool) {
+	const inf = ^uint64(0)
+	const maxInt = uint64(^uint(0) >> 1)
+	d := make([]uint64, n)
 	for i := range d {
-		d[i] = Inf
+		d[i] = inf
 	}
 	d[src] = 0
-	type edge struct{ u, v, w int }
+	type edge struct {
+		u, v int
+		w    uint64
+	}
 	es := make([]edge, 0, len(w))
 	for e, wt := range w {
-		es = append(es, edge{e[0], e[1], wt})
+		es = append(es, edge{e[0], e[1], uint64(wt)})
 	}
 	for pass := 0; pass < n; pass++ {
 		changed := false
 		for _, e := range es {
-			if d[e.u] != Inf && d[e.u]+e.w < d[e.v] {
-				d[e.v] = d[e.u] + e.w
+			if d[e.u] == inf {
+				continue
+			}
+			sum := d[e.u] + e.w
+			if sum < d[e.u] || sum >= inf {
+				sum = inf - 1 // saturate: reachable, but absurdly far
+			}
+			if sum < d[e.v] {
+				d[e.v] = sum
 				changed = true
 			}
 		}
@@ -154,7 +185,20 @@ func SingleSource(n int, w map[[2]int]int, src int) []int {
 			break
 		}
 	}
-	return d
+	row = make([]int, n)
+	representable = true
+	for i, x := range d {
+		switch {
+		case x == inf:
+			row[i] = Unreachable
+		case x >= maxInt:
+			representable = false
+			row[i] = int(maxInt)
+		default:
+			row[i] = int(x)
+		}
+	}
+	return row, representable
 }
 
 // VID maps a vertex object back to its id.
@@ -163,6 +207,8 @@ func VID(v graph.Vertex) int {
 	case int:
 		return x
 	case *HV:
+		return x.ID
+	case HVU:
 		return x.ID
 	}
 	return -1
@@ -190,6 +236,7 @@ func GenGraphCase(g G, kind string, maxN, maxW int) *GraphCase {
 		}
 	}
 	gc.Hash = g.Bool()
+	gc.Uncmp = gc.Hash && g.Pct(30)
 	// weight palette: small palettes force ties
 	var wp []int
 	switch g.Int(0, 4) {
